@@ -544,6 +544,61 @@ func runC25(c *Ctx) {
 			if len(failTests) > 0 {
 				pos = failTests[0].Ast.Pos()
 			}
+			// the checksum-guided pass is gated by verification results only (Verify's ok, the first pass's error)
+			{
+				var okVars []types.Object
+				for _, nc := range gdec.callNodes("github.com/klauspost/reedsolomon.Encoder.Verify") {
+					if v := gdec.lhsVarOfCall(nc.n, nc.cs, 0); v != nil {
+						okVars = append(okVars, v)
+					}
+				}
+				var extra []string
+				var xpos token.Pos
+				for _, cn := range gdec.Nodes {
+					if !cn.IsCond || cn.Ast == nil {
+						continue
+					}
+					e, _ := cn.Ast.(ast.Expr)
+					if e == nil {
+						continue
+					}
+					gates := false
+					for _, br := range []int{1, 2} {
+						if len(gdec.ReachableWithout(edgeCut([]*GNode{cn}, br), func(x *GNode) bool { return x == second[0] })) == 0 {
+							gates = true
+						}
+					}
+					if !gates {
+						continue
+					}
+					okCond := w.mentionsCall(fdec, e, "errors.Is")
+					for _, v := range okVars {
+						if mentionsObj(dinfo, e, v) {
+							okCond = true
+						}
+					}
+					ast.Inspect(e, func(x ast.Node) bool {
+						if sx, ok := x.(ast.Expr); ok && fieldOfSelector(dinfo, sx) == errF {
+							okCond = true
+						}
+						return true
+					})
+					if be, ok := e.(*ast.BinaryExpr); ok && be.Op == token.EQL && strings.Contains(types.ExprString(be), "len(shards)") {
+						okCond = true // the empty-input guard at the top
+					}
+					if !okCond {
+						extra = append(extra, types.ExprString(e))
+						if xpos == token.NoPos {
+							xpos = cn.Ast.Pos()
+						}
+					}
+				}
+				if xpos == token.NoPos {
+					xpos = second[0].Ast.Pos()
+				}
+				c.Check(len(extra) == 0, r6, "Decode: the checksum-guided pass runs whenever verification failed", xpos, "gated by Verify's result and the first pass's error only",
+					fmt.Sprintf("the checksum-guided pass additionally depends on `%s`: when it is skipped (say because a shard was missing and got rebuilt) a second, bit-rotted shard is never detected - the missing shard was rebuilt FROM it and the read returns wrong bytes with a nil error", strings.Join(extra, "`, `")), nil)
+			}
 			c.Check(len(failTests) == 0 || reach, r6, "Decode: a failed first pass can fall through to the checksum-guided pass", pos, "detectBadShardsThenReconstruct reachable from the failure of reconstructMissingShards",
 				"every failure of the first reconstruction returns: one shard file truncated mid-payload (longer than its header, shorter than its siblings) makes the library report `shard sizes do not match` and the whole read fails although a single shard is damaged and parity is available - the checksum-guided pass, which would null and rebuild that shard, is never reached", nil)
 		}
@@ -789,6 +844,10 @@ func runC26(c *Ctx) {
 		if l != nil && r != nil && dinfo.Uses[l] == rv && dinfo.Uses[r] == dv {
 			overwrite = n
 		}
+	}
+	// the second phase's result assigned straight into the variable that holds the first phase's result
+	if rv != nil && dv != nil && rv == dv {
+		overwrite = det[0].n
 	}
 	merged := false
 	for _, n := range gd.Nodes {
